@@ -85,16 +85,49 @@ def roots(F, T):
     """entry points: methods with a caller outside the lock module, or with no direct caller at all (trait impls reached through
     drop glue / operators). Private helpers — every direct caller inside the module — are not roots: they are seen inlined."""
     callers = F.callers()
-    out = []
-    for m in methods(F, T):
-        cs = [F.inst[c] for (c, k, bb) in callers.get(m.id, []) if k == "call"]
-        cs = [c for c in cs if c.id != m.id]
-        if cs and all(in_module(c) for c in cs):
-            continue
-        out.append(m)
+    # decided per method *definition*, over all instantiations of the lock: `write`/`store` are entry points of HalfLock<Option<Prev>> too
+    # even if only a convenience method of the module calls them there
+    ext = _root_defs.get(id(F))
+    if ext is None:
+        ext = set()
+        for T2 in lock_types(F):
+            for m in methods(F, T2):
+                cs = [F.inst[c] for (c, k, bb) in callers.get(m.id, []) if k == "call" and c != m.id]
+                if not cs or not all(in_module(c) for c in cs):
+                    ext.add(m.defp)
+        _root_defs[id(F)] = ext
+    out = [m for m in methods(F, T) if m.defp in ext]
     if not out:
         raise AnchorLost("no entry points of HalfLock<%s>" % T)
-    return out
+    # composite entry points — convenience methods built from other entry points (`guard.update_with(|copy| ..)` = clone + closure +
+    # `store`) — are not protocol primitives: callers see them inlined, and the primitives inside them are judged as such
+    ids = {m.id for m in out}
+    comp = set()
+    for m in out:
+        inl = set(inline.all_inlined(inline.cached(F, m, tag="full")))
+        if inl & (ids - {m.id}):
+            comp.add(m.id)
+    _composite.setdefault(id(F), set()).update(comp)
+    prim = [m for m in out if m.id not in comp]
+    if not prim:
+        raise AnchorLost("no primitive entry points of HalfLock<%s>" % T)
+    return prim
+
+
+_composite = {}
+_root_defs = {}
+
+
+def composite_ids(F):
+    """entry points of the lock module that are built from other entry points (computed for every instantiation)"""
+    if id(F) not in _composite:
+        _composite[id(F)] = set()
+        for T in lock_types(F):
+            try:
+                roots(F, T)
+            except AnchorLost:
+                pass
+    return _composite[id(F)]
 
 
 def N(F, m):
@@ -306,22 +339,48 @@ def rule_reader_order(ctx, rid, V):
     fields = rv["fields"]
     data_ok = slot_ok = False
     slot_field = None
+    def find_slot(e, owner, fname, depth=0):
+        """where in the (possibly nested) guard value does the incremented slot reference sit? -> (owning type, field name) or None"""
+        e = deep_strip(e)
+        if any(e == r for r in inc[0].recv):
+            return (owner, fname)
+        if e[0] == "agg" and e[1][0] == "adt" and depth < 3:
+            a = None
+            try:
+                a = F.adt(e[1][1])
+            except AnchorLost:
+                a = None
+            for k, sub in enumerate(e[2]):
+                nm_ = a["variants"][0]["fields"][k]["name"] if a and k < len(a["variants"][0]["fields"]) else str(k)
+                r_ = find_slot(sub, e[1][1], nm_, depth + 1)
+                if r_:
+                    return r_
+        return None
     for fi, fname in enumerate(fields):
         ex = [deep_strip(e) for e in fl.operand(rv["ops"][fi], (abb, asi))]
         if ex and all(mentions(e, lambda x: x[0] == "call" and x[1] == lds[0].bb) for e in ex):
             data_ok = True
-        if ex and all(any(e == r for r in inc[0].recv) for e in ex):
-            slot_ok = True; slot_field = fname
+        locs = [find_slot(e, RG, fname) for e in ex]
+        if ex and all(locs) and len(set(locs)) == 1:
+            slot_ok = True; slot_field = locs[0]
     ctx.check(data_ok and slot_ok, rid, "guard-binding:%s" % T, "the guard is built from that very pointer and that very slot reference", rv.get("sp") or m.span,
               {"data_from_load": data_ok, "slot_is_incremented_one": slot_ok})
     return m, nm, inc, lds, slot_field
 
 
 def guard_drop(F, T):
-    drops = [i for i in F.inst if i.local and i.body is not None and i.name == "<%s<'_, %s> as core::ops::drop::Drop>::drop" % (RG, T)]
-    if len(drops) != 1:
-        raise AnchorLost("Drop for ReadGuard<%s>" % T)
-    return drops[0], N(F, drops[0])
+    """the destructor that releases a reader: the workspace Drop impl reached from the drop glue of ReadGuard<T> that touches an atomic —
+    Drop for the guard itself, or for a private RAII member it holds"""
+    glue = [i for i in F.inst if i.kind == "drop_glue" and (i.drop_ty or "") == "%s<'_, %s>" % (RG, T)]
+    cands = []
+    if glue:
+        for x in F.reach(glue):
+            xi = F.inst[x]
+            if xi.local and xi.body is not None and re.match(r"^<.* as core::ops::drop::Drop>::drop$", xi.name) and in_module(xi) and sites(F, N(F, xi)):
+                cands.append(xi)
+    if len(cands) != 1:
+        raise AnchorLost("the releasing destructor of ReadGuard<%s> (found %s)" % (T, [c.name for c in cands]))
+    return cands[0], N(F, cands[0])
 
 
 def rule_release(ctx, rid, V, slot_field):
@@ -337,8 +396,8 @@ def rule_release(ctx, rid, V, slot_field):
         e1, why1 = exactly_once(nd, [dec[0].bb])
         amt = [fold(e) for e in flow(nd).term_arg(dec[0].bb, 1)]
         bt, f = recv_field(dec[0])
-        okk = e1 and amt == [1] and f == slot_field and bt and RG in bt
-        why = {"once": why1, "amount": amt, "field": f, "expected_field": slot_field}
+        okk = e1 and amt == [1] and slot_field is not None and f == slot_field[1] and bt and slot_field[0] in bt
+        why = {"once": why1, "amount": amt, "field": (bt, f), "expected_field": slot_field}
     ctx.check(okk, rid, "release:%s" % T, "dropping the guard decrements exactly once, by 1, the counter reference stored at construction", d.span,
               why or {"atomic_ops_in_drop": [repr(s) for s in ss]})
     others = [i.name for i in F.inst if i.local and i.body is not None and adt_constructions(i, RG) and not in_module(i)]
